@@ -91,6 +91,25 @@ class C10(Check):
         import elastica  # noqa: F401
         import sopht.simulator  # noqa: F401
 
+    def warm_if_stale(self, workers):
+        import time as _time
+
+        from ..driver import fork_map
+
+        combos = all_combos()
+        sample = [combos[0], combos[len(combos) // 2], combos[-1]]
+        fn = self.warm_combo
+
+        def timed(c):
+            t0 = _time.monotonic()
+            fn(c)
+            return _time.monotonic() - t0
+
+        slow = [x for x in fork_map(timed, sample, 3, 900) if x[1] != "ok" or x[2] > 15.0]
+        if slow:
+            print(f"JIT caches look stale ({len(slow)} of {len(sample)} sample configurations slow): re-warming")
+            self.warm_all(workers)
+
     def warm_all(self, workers):
         """Populate the numba on-disk cache for every (dx, N) the generator can draw."""
         from ..driver import fork_map
